@@ -326,11 +326,17 @@ impl St {
         let query = tokenize_query(q, &self.store.lang);
         self.store.search(&query.to_ref()).into_iter().map(|r| r.id).collect()
     }
+    /// The public tokenisation of a query / a title for the ORACLE side. Deliberately not taken with the store's own
+    /// language object: a reference computed with the object under observation, in the same order, shares whatever that
+    /// object keeps between calls (see `reference_tok`).
     pub fn tok_query(&self, q: &str) -> TextOwn {
-        tokenize_query(q, &self.store.lang)
+        with_lang(self.lang, |l| {
+            let _ = tokenize_query("zz 0", l);
+            tokenize_query(q, l)
+        })
     }
     pub fn tok_record(&self, t: &str) -> TextOwn {
-        tokenization::tokenize_record(t, &self.store.lang)
+        reference_tok(self.lang, t)
     }
 }
 
